@@ -786,9 +786,13 @@ impl DirectAddrUpdateState {
     fn schedule_run(&mut self, why: UpdateReason, if_state: IfStateDetails) {
         match self.net_reporter.clone().try_lock_owned() {
             Ok(net_reporter) => {
+                #[cfg(iroh_verif)]
+                crate::verif_hooks::pause::trace::event(|| format!("req {why:?} started"));
                 self.run(why, if_state, net_reporter);
             }
             Err(_) => {
+                #[cfg(iroh_verif)]
+                crate::verif_hooks::pause::trace::event(|| format!("req {why:?} deferred"));
                 let _ = self.want_update.insert(why);
             }
         }
@@ -799,11 +803,18 @@ impl DirectAddrUpdateState {
         match self.net_reporter.clone().try_lock_owned() {
             Ok(net_reporter) => {
                 if let Some(why) = self.want_update.take() {
+                    #[cfg(iroh_verif)]
+                    crate::verif_hooks::pause::trace::event(|| format!("done {why:?} started"));
                     self.run(why, if_state, net_reporter);
+                } else {
+                    #[cfg(iroh_verif)]
+                    crate::verif_hooks::pause::trace::event(|| "done idle".to_string());
                 }
             }
             Err(_) => {
                 // do nothing
+                #[cfg(iroh_verif)]
+                crate::verif_hooks::pause::trace::event(|| "done locked".to_string());
             }
         }
     }
@@ -822,10 +833,14 @@ impl DirectAddrUpdateState {
             debug!("skipping net_report, socket is shutting down");
             // deactivate portmapper
             self.port_mapper.deactivate();
+            #[cfg(iroh_verif)]
+            crate::verif_hooks::pause::trace::event(|| "skip shutdown".to_string());
             return;
         }
         if self.relay_map.is_empty() {
             debug!("skipping net_report, empty RelayMap");
+            #[cfg(iroh_verif)]
+            crate::verif_hooks::pause::trace::event(|| "skip empty-map".to_string());
             self.sock.net_report.set((None, why)).ok();
             return;
         }
@@ -841,8 +856,12 @@ impl DirectAddrUpdateState {
         // Ensure that reports are cancelled when we shutdown
         let token = self.shutdown_token.child_token();
         let inner_token = token.child_token();
+        #[cfg(iroh_verif)]
+        crate::verif_hooks::pause::trace::event(|| "spawn".to_string());
         task::spawn(
             async move {
+                #[cfg(iroh_verif)]
+                crate::verif_hooks::pause::gate::pass("direct_addr:run-started").await;
                 let fut = token.run_until_cancelled(time::timeout(
                     NET_REPORT_TIMEOUT,
                     net_reporter.get_report(if_state, why.is_major(), inner_token),
@@ -860,9 +879,20 @@ impl DirectAddrUpdateState {
                     }
                 }
 
+                #[cfg(iroh_verif)]
+                {
+                    crate::verif_hooks::pause::trace::event(|| "reported".to_string());
+                    crate::verif_hooks::pause::gate::pass("direct_addr:reported").await;
+                }
                 // mark run as finished
                 debug!("direct addr update done ({:?})", why);
                 run_done.send(()).await.ok();
+                #[cfg(iroh_verif)]
+                {
+                    crate::verif_hooks::pause::trace::event(|| "signalled".to_string());
+                    crate::verif_hooks::pause::gate::pass("direct_addr:signalled").await;
+                    crate::verif_hooks::pause::trace::event(|| "releasing".to_string());
+                }
             }
             .instrument(tracing::Span::current()),
         );
